@@ -125,6 +125,8 @@ class Env:
             f.write("")
         with open(j("file_m"), "w") as f:
             f.write("line1\nline2\n")
+        with open(j("file_bin"), "wb") as f:
+            f.write(b"\xff\xfe\x00not text\x80")      # cannot be read as text
         os.chmod(j("file_a"), 0o644)
         os.chmod(j("file_e"), 0o600)
         os.chmod(j("file_m"), 0o755)
@@ -155,7 +157,7 @@ class Env:
 
 
 PATH_NAMES = ["file_a", "file_e", "file_m", "dir_d", "dir_empty", "link_a", "t.tar", "t1.tar",
-              "missing", "dir_d/x", "dir_d/../file_a"]
+              "missing", "dir_d/x", "dir_d/../file_a", "file_bin"]
 
 
 def mkvalue(v, env):
@@ -202,6 +204,8 @@ def mkvalue(v, env):
 def dk(k):
     """Dict keys in JSON are strings; "#1" stands for the int 1 (dicts whose keys cannot be ordered
     against each other, like {1: .., "a": ..}, are dicts too)."""
+    if isinstance(k, str) and k.startswith("@j") and k[2:].isdigit():
+        return complex(0, int(k[2:]))       # keys of ONE type that has no ordering ("@j1" is 1j)
     return int(k[1:]) if isinstance(k, str) and k.startswith("#") and k[1:].lstrip("-").isdigit() else k
 
 
@@ -335,6 +339,8 @@ def build(e, env):
     if op == "SamePath":
         return M.SamePath(env.path(e[1]))
     if op == "TarballContains":
+        if len(e) > 2 and e[2] == "iter":
+            return M.TarballContains(iter(list(e[1])))      # "paths" given as a one-shot iterable
         return M.TarballContains(list(e[1]))
     raise ValueError("unknown node %r" % (e,))
 
@@ -481,8 +487,11 @@ def sem(e, v, env, raw=None):
     if op in ("FileContains", "FileContainsM"):
         if not os.path.exists(v):
             return False
-        with open(v) as f:
-            data = f.read()
+        try:
+            with open(v) as f:
+                data = f.read()
+        except UnicodeDecodeError:
+            raise Propagates(UnicodeDecodeError)     # the file is opened as text: what cannot be read is an error
         return data == e[1] if op == "FileContains" else S(e[1], data)
     if op == "HasPermissions":
         return oct(os.stat(v).st_mode)[-4:] == e[1]
@@ -512,7 +521,8 @@ LIST_POOL = [[], [1], [1, 2], [2, 1], [1, 1], [1, 2, 3], [3, 3, 3], [0, -1, 5], 
 DICT_POOL = [{}, {"a": 1}, {"a": 2}, {"a": 1, "b": 2}, {"b": 2}, {"a": 0, "b": 0, "c": 3}, {"\xe9": 1},
              {"a": 0}, {"a": 1, "b": 0},
              # keys of different types, which cannot be ordered against each other ("#1" is the int 1)
-             {"#1": 1, "a": 2}, {"#1": 0, "a": 0, "b": 1}, {"#1": 1}]
+             {"#1": 1, "a": 2}, {"#1": 0, "a": 0, "b": 1}, {"#1": 1},
+             {"@j1": 1, "@j2": 0}, {"@j2": 2}]
 OBJ_POOL = [{"a": 1, "b": 2, "s": "ab"}, {"a": 0, "b": 0, "s": ""}, {"a": -1, "b": 5, "s": "\xe9"},
             {"a": 2, "b": 2, "s": "a\nb"}]
 EXC_POOL = [["ValueError", ["x"]], ["ValueError", ["\xe9"]], ["ValueError", []], ["KeyError", ["k"]],
@@ -594,7 +604,7 @@ def leaves(domain, rng=None):
     elif domain == "dict":
         L += [["Equals", {"a": 1}], ["Equals", {}], ["KeysEqual", ["a"]], ["KeysEqual", ["a", "b"]],
               ["KeysEqual", ["b", "a"]], ["KeysEqual", ["c", "a", "b"]], ["KeysEqual", ["#1", "a"]],
-              ["KeysEqual", ["a", "#1", "b"]],
+              ["KeysEqual", ["a", "#1", "b"]], ["KeysEqual", ["@j2", "@j1"]],
               ["KeysEqual", []], ["HasLength", 1], ["Contains", "a"], ["IsInstance", ["dict"]]]
     elif domain == "obj":
         L += [["MatchesStructureByEquality", {"a": 1}], ["MatchesStructureByEquality", {"a": 0, "s": ""}],
@@ -645,7 +655,7 @@ def combos(domain, subs, rng, depth):
         out.append(lambda: ["MatchesSetwise", [subs(el) for _ in range(rng.randint(2, 4))]])
         out.append(lambda: ["MatchesSetwise", [subs(el)] * rng.randint(1, 3), True])
     if domain == "dict":
-        keys = ["a", "b", "c", "\xe9", "#1"]
+        keys = ["a", "b", "c", "\xe9", "#1", "@j1", "@j2"]
         for op in ("MatchesDict", "ContainsDict", "ContainedByDict"):
             out.append(lambda op=op: [op, {k: subs("int") for k in rng.sample(keys, rng.randint(0, 3))}])
     if domain == "obj":
@@ -687,7 +697,16 @@ def domain_values(expr_domain, expr):
         vals = values_of("path")
         if uses(expr, ("FileContains", "FileContainsM")):
             vals = [v for v in vals if v[1] in ("file_a", "file_e", "file_m", "link_a", "missing",
-                                                "dir_d/x", "dir_d/../file_a")]
+                                                "dir_d/x", "dir_d/../file_a", "file_bin")]
+
+        def reads_file_first(e):
+            # (which sub-matchers a combinator consults before one raises is not specified: the undecodable
+            # file is only offered where reading it is the first thing that happens)
+            while e[0] in ("Not", "Annotate"):
+                e = e[1] if e[0] == "Not" else e[2]
+            return e[0] == "FileContains" or (e[0] == "FileContainsM" and not uses(e[1], ("Raises", "raises")))
+        if not reads_file_first(expr):
+            vals = [v for v in vals if v[1] != "file_bin"]
         if uses(expr, ("HasPermissions",)):
             vals = [v for v in vals if v[1] != "missing"]
         if uses(expr, ("TarballContains",)):
